@@ -3858,7 +3858,7 @@ def _pair_tables(fn):
     return out
 
 
-def axis_order(r: R, chk, qual: str, helper_suffix: str = "mul_spline_curve", rule="AXIS-ORDER"):
+def axis_order(r: R, chk, qual: str, helper_suffix: str = "mul_spline_curve", rule="AXIS-ORDER", floor: int = 1):
     """`mul_spline_curve(U_a, U_b)[a][i][b]` multiplies basis function a of the FIRST vector with b of the SECOND.  A table of
     pairwise products built with the loop over P outside and the loop over Q inside is indexed [P][Q]; contracted over both axes
     with matrix[:, i, :] its outer loop therefore has to run over the points of the operand whose knot vector was passed first."""
@@ -3888,7 +3888,7 @@ def axis_order(r: R, chk, qual: str, helper_suffix: str = "mul_spline_curve", ru
             chk.ob(rule, f"{qual}: `{seg(node, 50)}` is indexed like `{seg(c, 40)}`", ok, loc=r.loc(ctx, node),
                    detail="" if ok else f"{qual}: the table `{seg(node, 60)}` is indexed [{fi.params[outer]}][{fi.params[inner]}] but the product matrix of `{seg(c, 50)}` is indexed [{fi.params[first]}][.][{fi.params[second]}]: contracted over both axes, basis function a of one curve meets point b of the other — a shape error when the curves have different numbers of control points, a silently wrong curve when they happen to have the same number on different knot vectors",
                    func=qual, construct="pairwise product table transposed")
-    chk.floor(rule, f"tables of pairwise point products next to {helper_suffix} in {qual}", n, 1)
+    chk.floor(rule, f"tables of pairwise point products next to {helper_suffix} in {qual}", n, floor)
     return n
 
 
@@ -4461,4 +4461,189 @@ def ufunc_float(r: R, chk, quals: List[str], rule="UFUNC-FLOAT", floor: int = 1)
                    detail="" if ok else f"{q}: `{seg(c, 50)}` applies a float-only numpy function to a value of the curve / a parameter as it is: for a curve with exact (Fraction) knots and points that value is a Fraction (or an object array of Fractions) and numpy raises TypeError — the operation fails on exact data where it works on the same data given as floats",
                    func=q, construct=f"float-only numpy function on an unconverted value: {seg(c.func)}")
     chk.floor(rule, "float-only numpy functions applied to values of a curve", n, floor)
+    return n
+
+
+# ---------------------------------------------------------------------------------------------------------
+# COUNT-PAIR: a knot vector shortened by a data-dependent selection goes with control points shortened by the same kind of selection
+def _filters_in(expr):
+    """comprehensions with an `if` clause inside an expression"""
+    return [c for c in ast.walk(expr) if isinstance(c, (ast.ListComp, ast.GeneratorExp, ast.SetComp)) and any(g.ifs for g in c.generators)]
+
+
+def _returned_filters(r: R, qual: str, depth: int = 2):
+    """filtered selections in what a helper returns (followed into the helpers it calls)"""
+    fi = r.prog.funcs.get(qual)
+    if fi is None:
+        return []
+    fn = fi.node
+    pos = _block_defs(fn)
+    out = []
+    for ret in ast.walk(fn):
+        if isinstance(ret, ast.Return) and ret.value is not None:
+            e = resolve_reaching(fn, ret.value, ret, pos=pos)
+            out += [(qual, c) for c in _filters_in(e)]
+            if depth > 0:
+                for c in ast.walk(e):
+                    if isinstance(c, ast.Call) and isinstance(c.func, ast.Attribute):
+                        for q2 in r.prog.funcs:
+                            if q2 != qual and q2.endswith("." + c.func.attr) and q2.split(".")[0] == qual.split(".")[0]:
+                                out += _returned_filters(r, q2, depth - 1)
+    return out
+
+
+def count_pair(r: R, chk, qual: str, rule="COUNT-PAIR"):
+    """`Curve(U - S, M @ P)`: the constructor needs len(M @ P) = npts(U - S).  When S is chosen by the data (the knots of full
+    multiplicity: both ends, and every interior knot where the curve may jump), the rows of M have to be chosen by the data as
+    well — with a fixed number of rows the counts differ as soon as an interior knot is selected.  And a selection of rows may
+    only read the knots: one that reads the values of the control points changes the count for particular point values."""
+    fi = r.prog.func(qual)
+    fn = fi.node
+    pos = _block_defs(fn)
+    n = 0
+    for c in ast.walk(fn):
+        if not (isinstance(c, ast.Call) and len(c.args) == 2 and (seg(c.func).endswith("__class__") or seg(c.func) in ("Curve", "cls"))):
+            continue
+        st = _stmt_map(fn).get(id(c))
+        vec = resolve_reaching(fn, c.args[0], st, pos=pos)
+        pts = resolve_reaching(fn, c.args[1], st, pos=pos)
+        fv = [f for f in _filters_in(vec)]
+        fp = [(qual, f) for f in _filters_in(pts)]
+        for call in ast.walk(pts):
+            if isinstance(call, ast.Call) and isinstance(call.func, ast.Attribute) and seg(call.func).startswith("heavy."):
+                for q2 in r.prog.funcs:
+                    if q2.startswith("heavy.") and q2.endswith("." + call.func.attr) and seg(call.func).split(".")[-2] in q2:
+                        fp += _returned_filters(r, q2)
+        if not fv and not fp:
+            continue
+        n += 1
+        ok = not fv or bool(fp)
+        chk.ob(rule, f"{qual}: `{seg(c, 50)}`: knots and control points are selected together", ok, loc=f"{fi.module}.py:{c.lineno}",
+               detail="" if ok else f"{qual}: the knot vector of `{seg(c, 50)}` loses one knot for every element of `{seg(fv[0], 70)}` — a number that depends on the data (every interior knot of full multiplicity counts, not only the two ends) — while the control points `{seg(c.args[1], 30)}` come from a matrix with a fixed number of rows: for a curve with a jump (an interior knot repeated degree + 1 times) the constructor gets one control point too many per such knot and Derivate raises ValueError instead of returning the derivative",
+               func=qual, construct="fixed number of rows for a data-dependent number of knots")
+        for q_, f in fp:
+            gen = f.generators[0]
+            elems = _target_names(gen.target)
+            src_names = {x.id for x in ast.walk(gen.iter) if isinstance(x, ast.Name)}
+            over_points = any("ctrlpoint" in s.lower() or "point" in s.lower() for s in src_names) or "ctrlpoints" in seg(gen.iter)
+            reads_elem = any(isinstance(x, ast.Name) and x.id in elems for i_ in gen.ifs for x in ast.walk(i_))
+            reads_points = any("ctrlpoints" in seg(i_) or "points" in seg(i_) for i_ in gen.ifs)
+            bad = (over_points and reads_elem) or reads_points
+            n += 1
+            chk.ob(rule, f"{q_}: the selection `{seg(f, 50)}` reads knots only", not bad, loc=f"{r.prog.func(q_).module}.py:{f.lineno}",
+                   detail="" if not bad else f"{q_}: `{seg(f, 70)}` keeps or drops a control point of the derivative by its VALUE: whenever a difference of neighbouring control points is zero (two equal neighbours — nothing unusual) a point disappears, the count no longer matches the knot vector and Derivate raises ValueError; which points exist is decided by the knots alone",
+                   func=q_, construct="control points selected by value")
+    chk.floor(rule, f"constructor calls with a data-dependent selection in {qual}", n, 1)
+    return n
+
+
+# ---------------------------------------------------------------------------------------------------------
+# AXIS-FIRST: the control points handed to a constructor have the control-point index as their FIRST axis for every point shape
+def _axes(fn, e, at, pos, env, depth=10):
+    """symbolic axes of an array expression: a tuple of axis names, '*x' for the (possibly empty) axes of one control point;
+    None when not known.  `env` maps `self.ctrlpoints`-like sources and helper results to their axes."""
+    if depth <= 0 or e is None:
+        return None
+    s = seg(e)
+    if s in env:
+        return env[s]
+    if isinstance(e, ast.Name):
+        st = reaching_assign(fn, at, e.id, pos)
+        if isinstance(st, ast.Assign) and len(st.targets) == 1 and isinstance(st.targets[0], ast.Name):
+            return _axes(fn, st.value, st, pos, env, depth - 1)
+        return None
+    if isinstance(e, ast.Call):
+        f = seg(e.func)
+        if f in ("np.array", "tuple", "list", "np.asarray") and e.args:
+            return _axes(fn, e.args[0], at, pos, env, depth - 1)
+        for suffix, ax in env.items():
+            if suffix.startswith("call:") and f.endswith(suffix[5:]):
+                return ax
+        if f == "np.moveaxis" and len(e.args) == 3 and seg(e.args[1]) == "0" and seg(e.args[2]) == "-1":
+            x = _axes(fn, e.args[0], at, pos, env, depth - 1)
+            return None if x is None else x[1:] + x[:1]
+        if f == "np.moveaxis" and len(e.args) == 3 and seg(e.args[1]) == "-1" and seg(e.args[2]) == "0":
+            x = _axes(fn, e.args[0], at, pos, env, depth - 1)
+            return None if x is None else x[-1:] + x[:-1]
+        if f == "np.transpose" and len(e.args) == 1:
+            x = _axes(fn, e.args[0], at, pos, env, depth - 1)
+            return None if x is None else tuple(reversed(x))
+        if f == "np.tensordot" and len(e.args) >= 2:
+            k = next((kw.value for kw in e.keywords if kw.arg == "axes"), e.args[2] if len(e.args) > 2 else ast.Constant(value=2))
+            if not (isinstance(k, ast.Constant) and isinstance(k.value, int)):
+                return None
+            x, y = _axes(fn, e.args[0], at, pos, env, depth - 1), _axes(fn, e.args[1], at, pos, env, depth - 1)
+            if x is None or y is None or len(x) < k.value or len(y) < k.value:
+                return None
+            return x[:len(x) - k.value] + y[k.value:]
+        if f == "np.dot" and len(e.args) == 2:
+            x, y = _axes(fn, e.args[0], at, pos, env, depth - 1), _axes(fn, e.args[1], at, pos, env, depth - 1)
+            return None if x is None or y is None or not x or not y else x[:-1] + y[1:]
+        return None
+    if isinstance(e, ast.BinOp) and isinstance(e.op, ast.MatMult):
+        x, y = _axes(fn, e.left, at, pos, env, depth - 1), _axes(fn, e.right, at, pos, env, depth - 1)
+        return None if x is None or y is None or not x or not y else x[:-1] + y[1:]
+    if isinstance(e, ast.BinOp) and isinstance(e.op, (ast.Add, ast.Sub)):
+        return _axes(fn, e.left, at, pos, env, depth - 1) or _axes(fn, e.right, at, pos, env, depth - 1)
+    if isinstance(e, ast.Subscript):
+        x = _axes(fn, e.value, at, pos, env, depth - 1)
+        if x is None:
+            return None
+        idx = e.slice.elts if isinstance(e.slice, ast.Tuple) else [e.slice]
+        if len(idx) > len(x):
+            return None
+        return tuple(a for a, i in zip(x, list(idx) + [ast.Slice()] * (len(x) - len(idx))) if isinstance(i, ast.Slice))
+    if isinstance(e, ast.ListComp) and len(e.generators) == 1:
+        g = e.generators[0]
+        lead = "n"
+        it = g.iter
+        if isinstance(it, ast.Call) and seg(it.func) == "range" and len(it.args) == 1 and isinstance(it.args[0], ast.Subscript) and isinstance(it.args[0].value, ast.Attribute) and it.args[0].value.attr == "shape":
+            base = _axes(fn, it.args[0].value.value, at, pos, env, depth - 1)
+            k = it.args[0].slice
+            if base is not None and isinstance(k, ast.Constant) and isinstance(k.value, int) and k.value < len(base):
+                lead = base[k.value]
+        else:
+            base = _axes(fn, it, at, pos, env, depth - 1)
+            if base:
+                lead = base[0]
+        inner_env = dict(env)
+        if isinstance(g.target, ast.Name):
+            base = _axes(fn, it, at, pos, env, depth - 1)
+            if base:
+                inner_env[g.target.id] = base[1:]
+        el = _axes(fn, e.elt, at, pos, inner_env, depth - 1)
+        if el is None:
+            if isinstance(e.elt, ast.BinOp) and isinstance(e.elt.op, (ast.Mult, ast.MatMult, ast.Div)):
+                el = ("*x",)
+            else:
+                return None
+        return (lead,) + tuple(el)
+    return None
+
+
+def axis_first(r: R, chk, quals: List[str], rule="AXIS-FIRST", floor: int = 1):
+    """A curve keeps its control points as a sequence indexed by the basis function: axis 0.  Products written with tensordot /
+    moveaxis / @ are followed axis by axis with the shape of ONE control point left open ('*d': empty for scalar-valued curves,
+    one axis for points in the plane or in space).  What reaches `Curve(vector, ctrlpoints)` has to start with the axis of the
+    result's basis functions whatever '*d' is: a shape that starts with '*d' is right for scalar-valued curves only."""
+    n = 0
+    for q in quals:
+        fi = r.prog.func(q)
+        fn = fi.node
+        pos = _block_defs(fn)
+        stmts = _stmt_map(fn)
+        a, b = fi.params[0], fi.params[1]
+        env = {f"{a}.ctrlpoints": ("a", "*d"), f"{b}.ctrlpoints": ("b", "*e"), "call:mul_spline_curve": ("a", "c", "b")}
+        for c in ast.walk(fn):
+            if not (isinstance(c, ast.Call) and seg(c.func) in ("Curve", "self.__class__", "cls") and len(c.args) == 2):
+                continue
+            ax = _axes(fn, c.args[1], stmts.get(id(c)), pos, env)
+            if ax is None:
+                continue
+            n += 1
+            ok = bool(ax) and not ax[0].startswith("*")
+            chk.ob(rule, f"{q}: `{seg(c, 40)}`: the control points start with the axis of the basis functions (axes {ax})", ok, loc=f"{fi.module}.py:{c.lineno}",
+                   detail="" if ok else f"{q}: the control points of `{seg(c, 40)}` have the axes ({', '.join(ax)}): with '{ax[0]}' the axes of one control point of `{a}`, the index of the control point comes first only when `{a}` is scalar-valued — for a curve in the plane or in space the constructor receives one 'control point' per coordinate and raises ValueError (the number of control points must be the same as npts): A * B fails for every vector-valued A, and with it A + B, A - B of vector-valued rational curves and Derivate of every multi-span rational curve in the plane",
+                   func=q, construct="control-point axis not first")
+    chk.floor(rule, "constructor calls whose control-point axes are followed", n, floor)
     return n
